@@ -362,6 +362,28 @@ func concreteReqBody(class string, rng *rand.Rand, key string) (body []byte, chu
 
 // httpReqDriver: C02. Raw client -> real proxy -> real agent -> raw backend; each case is judged
 // by HttpMsg!ReqOK on (what was sent, what arrived).
+// nominateHopByHop: history for the cases that follow.  One earlier client declares a list of field names hop-by-hop
+// for ITS OWN connection ("Connection: keep-alive, Etag, Accept, ..." - RFC 9110 7.6.1 allows any field to be named
+// there).  Whatever the relay does with that request (it is not judged), it concerns that one message: the requests
+// and responses of every later exchange carry those fields end to end as before.
+func nominateHopByHop(addr string) {
+	names := []string{"Accept", "Accept-Encoding", "User-Agent", "Content-Type", "Range", "If-None-Match", "Origin", "Cookie", "Authorization",
+		"Proxy-Trace-Id", "Connection-Id", "Keep-Alive-Hint", "Upgrade-Insecure-Requests", "Te-Extension", "Trailer-Hint", "X-Case",
+		"Etag", "Vary", "Link", "Server", "Age", "Via", "Content-Encoding", "X-Frame-Options", "Cache-Control", "Set-Cookie", "Location",
+		"Proxy-Status", "Upgrade-Policy", "Content-Language", "Last-Modified", "X-Token"}
+	for round := 0; round < 2; round++ {
+		var raw bytes.Buffer
+		fmt.Fprintf(&raw, "GET /nominate/%d HTTP/1.1\r\nHost: svc.example\r\nConnection: keep-alive, %s\r\n", round, strings.Join(names, ", "))
+		for _, n := range names {
+			if n != "X-Case" {
+				fmt.Fprintf(&raw, "%s: n%d\r\n", n, round)
+			}
+		}
+		fmt.Fprintf(&raw, "X-Case: nominate-%d\r\n\r\n", round)
+		hx.RawRoundTrip(addr, raw.Bytes(), "GET", 20*time.Second)
+	}
+}
+
 func httpReqDriver(a *Args) {
 	res := a.Res
 	cases := loadHTTPCases(a)
@@ -396,6 +418,7 @@ func httpReqDriver(a *Args) {
 			return
 		}
 		addr := fmt.Sprintf("127.0.0.1:%d", port)
+		nominateHopByHop(addr)
 		one := func(c reqCase, pass string, rng *rand.Rand) {
 			method := c.Method
 			bodyClass := c.Body
@@ -933,6 +956,7 @@ func httpRespDriver(a *Args) {
 			return
 		}
 		addr := fmt.Sprintf("127.0.0.1:%d", port)
+		nominateHopByHop(addr)
 		var dead int32
 		one := func(c respCase, pass string, rng *rand.Rand) {
 			if atomic.LoadInt32(&dead) != 0 {
